@@ -270,6 +270,15 @@ func coseMutations() []coseMut {
 		csetP(b, "100", cTstr("text"))
 		caddCrit(b, cInt(100))
 	})
+	for _, n := range append([]string{"alg", "crit", "cty", "content type"}, reservedLookingNames...) {
+		n := n
+		add("ext:reserved-looking-text-label:"+n, func(b *coseBuild, c *coseCtx) { csetP(b, n, cTstr("signed value of "+n)) })
+		add("ext:reserved-looking-text-label-crit:"+n, func(b *coseBuild, c *coseCtx) { csetP(b, n, cTstr("signed value of "+n)); caddCrit(b, cTstr(n)) })
+	}
+	for _, l := range []int64{0, 7, 8, 9, 10, 11, 12, 32, 34, 35, -1, -7, 256} {
+		l := l
+		add(fmt.Sprintf("ext:registered-int-label:%d", l), func(b *coseBuild, c *coseCtx) { csetP(b, l, cBstr([]byte{1, 2, 3})) })
+	}
 	add("ext:registered-kid", func(b *coseBuild, c *coseCtx) { csetP(b, int64(4), cBstr([]byte("kid-1"))); caddCrit(b, cInt(4)) })
 	add("ext:registered-kid-wrongtype", func(b *coseBuild, c *coseCtx) { csetP(b, int64(4), cTstr("kid")) })
 	add("ext:registered-iv", func(b *coseBuild, c *coseCtx) { csetP(b, int64(5), cBstr([]byte{1, 2, 3})) })
@@ -405,6 +414,14 @@ func coseMutations() []coseMut {
 		csetU(b, int64(33), x5chainOf(append([][]byte{c.other.chain[0].Raw}, ders(c.id.chain[1:])...)))
 	})
 	add("x5c:other-identity-chain", func(b *coseBuild, c *coseCtx) { csetU(b, int64(33), x5chainOf(ders(c.other.chain))) })
+	for _, dm := range defectiveChainMutations() {
+		dm := dm
+		add("chain:"+dm.name, func(b *coseBuild, c *coseCtx) {
+			chain, key := defectiveIdentity(dm.mut, dm.pos, dm.n)
+			csetU(b, int64(33), x5chainOf(ders(chain)))
+			b.SignKey = key
+		})
+	}
 	add("x5c:missing-root", func(b *coseBuild, c *coseCtx) {
 		if len(c.id.chain) > 1 {
 			csetU(b, int64(33), x5chainOf(ders(c.id.chain[:len(c.id.chain)-1])))
@@ -596,6 +613,7 @@ func genCoseRead(r *Runner, prop string) {
 			}
 		}
 	}
+	coseReps := familyRepresentatives(func(i int) string { return muts[i].name }, len(muts))
 	for i, a := range muts {
 		for jx, b := range muts {
 			if i >= jx {
@@ -603,7 +621,9 @@ func genCoseRead(r *Runner, prop string) {
 			}
 			// pairs that touch where the certificates come from are never sampled away: who signed is what C01 and C02 are about
 			must := identityMut(a.name) || identityMut(b.name)
-			_ = must // every pair, in every tier
+			if !must && !keepPair(a.name, b.name, coseReps, quick, i+jx) {
+				continue // members of a large family pair through its first member (see keepPair)
+			}
 			jobs = append(jobs, coseJob{label: "pair", keyID: "ec256-0", n: 2, scheme: schemes[rng.Intn(2)], muts: []coseMut{a, b}, ext: rng.Intn(3), expiry: rng.Intn(3) == 0})
 		}
 	}
